@@ -1264,6 +1264,71 @@ mut("queue-new-sentinel-with-next", "break", ["C17"], "Queue::new's sentinel poi
     [ed(Q, "        q.head.store(sentinel, Relaxed);\n        q.tail.store(sentinel, Relaxed);\n", "        q.head.store(sentinel, Relaxed);\n        q.tail.store(sentinel, Relaxed);\n        unsafe { sentinel.deref() }.next.store(sentinel, Relaxed);\n")], ["EBR-QUEUE", "EBR-INIT"])
 mut("queue-drop-keeps-elements", "break", ["C15", "C04"], "Queue::drop frees the sentinel without popping the remaining elements (their bags are never run)",
     [ed(Q, "            while self.try_pop(guard).is_some() {}\n", "")], ["EBR-QUEUE-DROP"])
+mut("own-newrciter-next-inverted", "break", ["C10", "C01"], "NewRcIter::next tests `remain != 0`: yields with no share left (mutation sweep M0031)",
+    [ed(S, """        if self.remain == 0 {
+            None
+        } else {
+            self.remain -= 1;""", """        if self.remain != 0 {
+            None
+        } else {
+            self.remain -= 1;""")], ["OWN-BALANCE"])
+mut("own-newrciter-next-off-by-one", "break", ["C10"], "NewRcIter::next stops at `remain == 1`: one owner fewer than advertised is handed out (mutation sweep M0032)",
+    [ed(S, """        if self.remain == 0 {
+            None
+        } else {
+            self.remain -= 1;""", """        if self.remain == 1 {
+            None
+        } else {
+            self.remain -= 1;""")], ["OWN-BALANCE"])
+mut("ok-newrciter-next-checked-sub", "benign", [], "NewRcIter::next written with checked_sub",
+    [ed(S, """        if self.remain == 0 {
+            None
+        } else {
+            self.remain -= 1;
+            Some(Rc {
+                ptr: self.ptr,
+                _marker: PhantomData,
+            })
+        }""", """        if self.remain > 0 {
+            self.remain -= 1;
+            Some(Rc {
+                ptr: self.ptr,
+                _marker: PhantomData,
+            })
+        } else {
+            None
+        }""")])
+mut("cw-cascade-zero-test-off-by-one", "break", ["C01", "C04"], "the cascade recurses into a child when its NEW count is 1, not 0 (mutation sweep M0166): steals a share of a still-owned child, never destructs unowned ones",
+    [ed(U, "            if next_cnt.strong() == 0 {", "            if next_cnt.strong() == 1 {")], ["CW-ZERO-DEFERS"])
+mut("cw-cap-returns-silently", "break", ["C04", "C07"], "at the depth cap the cascade returns without deferring try_destruct (mutation sweep M0139): the tail of a chain beyond 1024 is never destructed",
+    [ed(U, """        guard.defer_with_inner(rc, |rc| RcInner::try_destruct(rc));
+        return;
+    }""", """        return;
+    }""")], ["CW-DESTRUCT-ORDER"])
+mut("rec-root-depth-1", "break", ["C07", "C04"], "dispose enters the cascade at depth 1 (mutation sweep M0129)",
+    [ed(U, "dispose_general_node(inner, 0, counter, guard);", "dispose_general_node(inner, 1, counter, guard);")], ["REC-DEPTH-GUARD"])
+mut("init-thread-collecting-true", "break", ["C04", "C15"], "THREAD_COLLECTING starts true (mutation sweep M0226): no thread ever collects",
+    [ed(I, "static THREAD_COLLECTING: Cell<bool> = const { Cell::new(false) };", "static THREAD_COLLECTING: Cell<bool> = const { Cell::new(true) };")], ["EBR-INIT"])
+mut("guard-unprotected-defer-drops-f", "break", ["C15", "C04"], "defer_unchecked on an unprotected guard drops f unrun (mutation sweep M0215)",
+    [ed(G, """        } else {
+            drop(f());
+        }""", """        } else {
+            drop(f);
+        }""")], ["CW-DEFER-WRAPPER"])
+mut("rec-depth-step-2", "break", ["C06"], "the recursive call passes depth + 2 (mutation sweep M0168): the cap is reached after 512 nodes",
+    [ed(U, "dispose_general_node(next_ptr.as_raw(), depth + 1, counter, guard);", "dispose_general_node(next_ptr.as_raw(), depth + 2, counter, guard);")], ["REC-IMMEDIATE"])
+mut("rec-dispose-no-cascade", "break", ["C04"], "dispose no longer calls dispose_general_node (mutation sweep M0130)",
+    [ed(U, "        dispose_general_node(inner, 0, counter, guard);", "        let _ = (inner, counter, guard);")], ["REC-DEPTH-GUARD"], allow_error=True)
+mut("rec-thread-flag-never-cleared", "break", ["C04", "C15"], "unpin does not clear the thread-wide collecting flag after its collections (mutation sweep M0314): the thread never collects again",
+    [ed(I, """            self.collecting.set(false);
+            THREAD_COLLECTING.with(|c| c.set(false));""", """            self.collecting.set(false);""")], ["REC-COLLECT-REENTRY"])
+mut("list-unlinked-not-finalized", "break", ["C18"], "the traversal unlinks a deleted entry without handing it to finalize (mutation sweep M0387): the participant is never freed",
+    [ed(LF, """                        unsafe {
+                            C::finalize(self.curr.deref(), self.guard);
+                        }
+""", "")], ["EBR-LIST"])
+mut("list-drop-no-finalize", "break", ["C18"], "List::drop does not finalize the remaining entries (mutation sweep M0382)",
+    [ed(LF, "                C::finalize(curr.deref(), &guard);", "                let _ = (&curr, &guard);")], ["EBR-LIST"])
 mut("wrap-atomicepoch-cas-always-ok", "break", ["C13", "C14"], "AtomicEpoch::compare_exchange reports Ok on failure",
     [ed(EPF, "Err(data) => Err(Epoch { data }),", "Err(data) => Ok(Epoch { data }),")], ["WRAP-ATOMICS"])
 mut("wrap-defer-none-runs-now", "break", ["C01", "C02", "C13"], "Option<&Guard>::defer_with_inner runs f at once when no guard is given",
